@@ -195,13 +195,49 @@ def report(v, f, rerun=True):
 
 
 # ---------------------------------------------------------------------------------------
-def run_mc(cfg, workers=16, simulate=None, depth=None, timeout=1500, xmx="12g"):
+def _mc_key(cfg, workers, simulate, depth):
+    """identity of a run of TLC on the array model: the specification files, the configuration and the parameters (nothing of
+    /repo enters such a run)"""
+    import hashlib
+    h = hashlib.sha256()
+    for n in sorted(os.listdir(vlib.SPEC)):
+        if n.endswith(".tla") and n.startswith("Array"):
+            h.update(n.encode()); h.update(open(os.path.join(vlib.SPEC, n), "rb").read())
+    h.update(open(cfg, "rb").read())
+    h.update(repr((workers, simulate, depth, vlib.seed() if simulate else 0)).encode())
+    return h.hexdigest()[:32]
+
+
+def run_mc(cfg, workers=16, simulate=None, depth=None, timeout=1500, xmx="12g", reuse=False):
+    """reuse (thorough tier only): the seven properties that share the array model run the same long model checks (9 min
+    exhaustive, 11 + 7 min of simulation); the result of an identical run (same specification bytes, configuration, parameters
+    and seed) made by an earlier check is taken from out/cache instead of being recomputed, and marked as such in the evidence"""
+    cpath = None
+    if reuse:
+        cpath = os.path.join(vlib.OUT, "cache", "mc-%s.json" % _mc_key(cfg, workers, simulate, depth))
+        if os.path.exists(cpath):
+            try:
+                d = json.load(open(cpath))
+                res = vlib.TlcResult()
+                for k, val in d.items():
+                    setattr(res, k, val)
+                res.cached = True
+                return res
+            except Exception:
+                pass
     res = vlib.run_tlc("ArrayMC", cfg=cfg, workers=workers, simulate=simulate, depth=depth, timeout=timeout, xmx=xmx,
                        tag="mc-" + os.path.basename(cfg))
     if res.error and not res.violated:
         if simulate and res.error == "timeout":
             return res
         raise vlib.ToolFailure("TLC on ArrayMC (%s): %s\n%s" % (cfg, res.error, res.out[-2000:]))
+    if cpath and not res.error:
+        os.makedirs(os.path.dirname(cpath), exist_ok=True)
+        tmp = cpath + ".%d.tmp" % os.getpid()
+        json.dump({"rc": res.rc, "out": res.out[-200000:], "generated": res.generated, "distinct": res.distinct, "depth": res.depth,
+                   "violated": res.violated, "trace": res.trace, "coverage": res.coverage, "wall": res.wall, "error": res.error,
+                   "computed_at": int(time.time())}, open(tmp, "w"))
+        os.replace(tmp, cpath)
     return res
 
 
@@ -241,10 +277,11 @@ def standard_run(pid, tier, profiles, nquick, nthorough, steps=(18, 26), directe
     states = trans = 0
     ms = mc_steps[0] if quick else mc_steps[1]
     cfg = write_mc_cfg("%s-exh" % pid, ms, invariant="NoOtherViolation")
-    r = run_mc(cfg, timeout=3000)
+    r = run_mc(cfg, timeout=3000, reuse=not quick)
     states += r.distinct; trans += r.generated
     cov["mc"].append({"cfg": "exhaustive MaxSteps=%d, 2 disks, 2 parities, 2 names, 4 contents, <=2 damages" % ms,
-                      "distinct": r.distinct, "generated": r.generated, "depth": r.depth, "violated": r.violated})
+                      "distinct": r.distinct, "generated": r.generated, "depth": r.depth, "violated": r.violated,
+                      "reused_identical_run": bool(getattr(r, "cached", False))})
     if r.violated:
         p2, sig = mc_signature(r)
         v.violation("TLC: %s on ArrayMC (exhaustive): %s" % (sig, " ".join(mc_trace_actions(r))),
@@ -263,27 +300,31 @@ def standard_run(pid, tier, profiles, nquick, nthorough, steps=(18, 26), directe
                                    "known-findings.txt are out of step" % want)
     if sim:
         cfg = write_mc_cfg("%s-sim" % pid, 9, stamp=6, invariant="NoOtherViolation", view=False)
-        r = run_mc(cfg, workers=8, simulate=2000 if quick else 200000, depth=11, timeout=120 if quick else 1500)
+        # (num is per worker: 8 x 20000 histories, about 11 minutes)
+        r = run_mc(cfg, workers=8, simulate=2000 if quick else 20000, depth=11, timeout=120 if quick else 1500, reuse=not quick)
         trans += r.generated
-        cov["mc"].append({"cfg": "simulate NoOtherViolation, histories of 9 actions", "generated": r.generated, "violated": r.violated})
+        cov["mc"].append({"cfg": "simulate NoOtherViolation, histories of 9 actions", "generated": r.generated, "violated": r.violated,
+                          "reused_identical_run": bool(getattr(r, "cached", False))})
         if r.violated:
             p2, sig = mc_signature(r)
             v.violation("TLC: %s on ArrayMC (simulation): %s" % (sig, " ".join(mc_trace_actions(r))),
                         replay_obj={"kind": "tlc-trace", "trace": r.trace}, signature=sig, pid=p2)
     if sim:
         # the whole command set (rehash, scrub, sync -R, fix under -d / -f / -m / -e / -b) on top of the same state machine
-        r = run_mc(os.path.join(vlib.SPEC, "ArrayMC_ext.cfg"), workers=8, simulate=250 if quick else 20000, depth=11,
-                   timeout=180 if quick else 2400)
+        r = run_mc(os.path.join(vlib.SPEC, "ArrayMC_ext.cfg"), workers=8, simulate=250 if quick else 6000, depth=11,
+                   timeout=180 if quick else 1500, reuse=not quick)
         trans += r.generated
         cov["mc"].append({"cfg": "simulate ArrayMC_ext (Ext actions: Rehash, Scrub, SyncR, FixD/FixF/FixM/FixE), histories of 9 actions",
-                          "generated": r.generated, "violated": r.violated})
+                          "generated": r.generated, "violated": r.violated, "reused_identical_run": bool(getattr(r, "cached", False))})
         if r.violated:
             p2, sig = mc_signature(r)
             v.violation("TLC: %s on ArrayMC_ext (simulation): %s" % (sig, " ".join(mc_trace_actions(r))),
                         replay_obj={"kind": "tlc-trace", "trace": r.trace}, signature=sig, pid=p2)
     s0 = vlib.seed() * 100000
     jobs = list(directed_jobs(s0)) if callable(directed_jobs) else list(directed_jobs)
-    n = nquick if quick else nthorough
+    # the thorough tier is sized to end within about half an hour per property: at most 72 histories of at most 32 steps
+    n = nquick if quick else min(nthorough, 72)
+    steps = (steps[0], min(steps[1], 32))
     for i in range(n):
         sh = shapes[i % len(shapes)]
         # a shape is (data disks, parity levels[, extra configuration: hash_size, splits, ...])
